@@ -4,6 +4,8 @@
 //
 //  1. import "sync" / "sync/atomic"  ->  vrt/vsync / vrt/vatomic shims
 //  2. `range X` with X of map type   ->  `range vrt.MapRange("<site>", X)`
+//  4. `vrt.MapAccess(m, field, func, write)` in front of every statement that reads or writes a map held in a
+//     struct field (input of the happens-before race detection on shared maps)
 //  3. scheduling points after raw (non-shim) wake-ups: after every go
 //     statement, channel receive statement, time.Sleep, and at the start of
 //     every select clause and range-over-channel body.
@@ -236,6 +238,131 @@ func rewrite(fset *token.FileSet, p *packages.Package, f *ast.File, fn string, s
 		}
 		return true
 	})
+	// 4. accesses to maps held in struct fields: a call recording the access (map identity, field, function,
+	// read/write) is put in front of the statement of the enclosing statement list that performs it; nested
+	// blocks and function literals are statement lists of their own
+	isFieldMap := func(e ast.Expr) (string, bool) {
+		sel, ok := e.(*ast.SelectorExpr)
+		if !ok {
+			return "", false
+		}
+		selInfo, ok := p.TypesInfo.Selections[sel]
+		if !ok || selInfo.Kind() != types.FieldVal {
+			return "", false
+		}
+		if _, isMap := selInfo.Type().Underlying().(*types.Map); !isMap {
+			return "", false
+		}
+		return sel.Sel.Name, true
+	}
+	unparen := func(e ast.Expr) ast.Expr {
+		for {
+			pe, ok := e.(*ast.ParenExpr)
+			if !ok {
+				return e
+			}
+			e = pe.X
+		}
+	}
+	srcOf := func(n ast.Node) string {
+		return string(src[fset.Position(n.Pos()).Offset:fset.Position(n.End()).Offset])
+	}
+	collectOwn := func(root ast.Stmt, fname string) string {
+		if _, isBlock := root.(*ast.BlockStmt); isBlock {
+			return ""
+		}
+		writes := map[ast.Expr]bool{}
+		type acc struct {
+			text, field string
+			write       bool
+		}
+		var accs []acc
+		seen := map[string]bool{}
+		note := func(m ast.Expr, write bool) {
+			field, ok := isFieldMap(m)
+			if !ok {
+				return
+			}
+			a := acc{text: srcOf(m), field: field, write: write}
+			k := fmt.Sprintf("%s|%v", a.text, write)
+			if !seen[k] {
+				seen[k] = true
+				accs = append(accs, a)
+			}
+		}
+		ast.Inspect(root, func(node ast.Node) bool {
+			switch x := node.(type) {
+			case *ast.BlockStmt, *ast.FuncLit:
+				return false
+			case *ast.AssignStmt:
+				for _, l := range x.Lhs {
+					if ix, ok := unparen(l).(*ast.IndexExpr); ok {
+						writes[ix] = true
+					}
+				}
+			case *ast.IncDecStmt:
+				if ix, ok := unparen(x.X).(*ast.IndexExpr); ok {
+					writes[ix] = true
+				}
+			case *ast.IndexExpr:
+				note(unparen(x.X), writes[x])
+			case *ast.RangeStmt:
+				note(unparen(x.X), false)
+			case *ast.CallExpr:
+				if id, ok := x.Fun.(*ast.Ident); ok && len(x.Args) > 0 {
+					if _, builtin := p.TypesInfo.Uses[id].(*types.Builtin); builtin {
+						switch id.Name {
+						case "delete", "clear":
+							note(unparen(x.Args[0]), true)
+						case "len":
+							note(unparen(x.Args[0]), false)
+						}
+					}
+				}
+			}
+			return true
+		})
+		var b strings.Builder
+		for _, a := range accs {
+			fmt.Fprintf(&b, "vrt.MapAccess(%s, %q, %q, %v); ", a.text, a.field, fname, a.write)
+		}
+		return b.String()
+	}
+	{
+		var fname string
+		var doList func(list []ast.Stmt)
+		doList = func(list []ast.Stmt) {
+			for _, st := range list {
+				if t := collectOwn(st, fname); t != "" {
+					add(st.Pos(), t, 0)
+					needVrt = true
+					n["map_accesses"]++
+				}
+			}
+		}
+		ast.Inspect(f, func(node ast.Node) bool {
+			switch x := node.(type) {
+			case *ast.FuncDecl:
+				fname = x.Name.Name
+				if x.Recv != nil && len(x.Recv.List) > 0 {
+					t := x.Recv.List[0].Type
+					if s, ok := t.(*ast.StarExpr); ok {
+						t = s.X
+					}
+					if id, ok := t.(*ast.Ident); ok {
+						fname = id.Name + "." + fname
+					}
+				}
+			case *ast.BlockStmt:
+				doList(x.List)
+			case *ast.CaseClause:
+				doList(x.Body)
+			case *ast.CommClause:
+				doList(x.Body)
+			}
+			return true
+		})
+	}
 	// statements that are the Comm of a select clause must not get a trailing
 	// yield (syntax): drop edits located at the end of a CommClause.Comm.
 	commEnds := map[int]bool{}
